@@ -1,4 +1,5 @@
 import KitProofs.Lemmas.Broadcaster
+import KitProofs.Lemmas.BroadcasterProgress
 /-!
 C11 — events/broadcaster.  Property theorems about the LTS `Kit.Broadcaster` (`KitModel/Broadcaster.lean`).
 `Variant.fixed` models `Close` as repaired (CAS + close(closeCh) before taking the lock);
@@ -23,6 +24,18 @@ def sampleState : State := (runLabels .fixed init sampleLabels).getD init
 theorem sample_run : runLabels .fixed init sampleLabels = some sampleState := by decide
 
 theorem sample_reach : Reach .fixed sampleState := reach_of_run _ _ _ Reach.init sample_run
+
+/-- One stalled subscriber; 11 Broadcasts complete (10 in the buffer, 1 in the forwarder's hand);
+the 12th blocks holding the lock; then Close and a second Subscribe are called. -/
+def witnessLabels : List Label :=
+  [.subCall, .subAcquire 0, .subReturn 0,
+   .bcCall 100, .bcAcquire 0, .bcPush, .bcFinish, .bcReturn 0, .fwdTake 0] ++
+  ((List.range 10).flatMap fun k => [.bcCall (101 + k), .bcAcquire 0, .bcPush, .bcFinish, .bcReturn (k + 1)]) ++
+  [.bcCall 111, .bcAcquire 0, .closeCall, .subCall]
+
+def witnessState : State := (runLabels .orig init witnessLabels).getD init
+
+theorem witness_run : runLabels .orig init witnessLabels = some witnessState := by decide
 
 /-- `suffix_inv`: for a subscriber no Broadcast has skipped, what it received, the value in its
 forwarder's hand, its buffer and — while a fan-out has not reached it yet — the value being fanned
@@ -111,19 +124,137 @@ example : ∃ s, runLabels .fixed init closedSampleLabels = some s ∧ 0 < s.clo
     s.subs.length = 1 :=
   ⟨_, rfl, by decide, by decide⟩
 
+/-! ### No deadlock: internal progress (model of the repaired code)
+
+`stalled i = true` means the reader of subscriber `i` never reads.  A path over
+`allowed stalled` uses internal steps and deliveries to readers that are not stalled; with
+`stalled = fun _ => true` it uses internal steps only (`IPath`): no reader reads, no context is
+cancelled, no new call arrives.  The hypothesis `Hyp stalled s` is "`Close` has been called, or
+every stalled subscriber has left (context cancelled)". -/
+
+/-- `close_can_complete`: whenever a `Close` call is pending — whatever else is going on: a
+`Broadcast` blocked on a full buffer while holding the lock, all readers stalled — internal steps
+alone lead to the state where `Close` returns. -/
+theorem close_can_complete {s : State} (hr : Reach .fixed s) (hp : closePending s) :
+    ∃ s', IPath .fixed s s' ∧ (step .fixed s' .closeReturn).isSome = true := by
+  have hH : Hyp (fun _ => true) s := Or.inl (by
+    simp only [closeCalled]; simp only [closePending] at hp; omega)
+  obtain ⟨s1, p1, hr1, _, hf, hbc, _⟩ := drain_lock (fun _ => true) hr hH
+  have hp1 : closePending s1 := by
+    have h1 := hf.closeSum; have h2 := hf.closeRet
+    simp only [closePending] at hp ⊢; omega
+  obtain ⟨s2, p2, _, ht⟩ := close_phase2 hr1 hbc hp1
+  exact ⟨s2, (p1.mono (fun l => internal_of_allowed_all)).trans p2, ht⟩
+
+example : ∃ s, Reach .fixed s ∧ closePending s ∧ s.bc.isSome = true ∧
+    (∃ u, s.subs[0]? = some u ∧ u.buf.length = 10 ∧ u.pc = .holding) :=
+  -- the deadlocked schedule of `close_blocked_witness`, replayed in the repaired model
+  ⟨(runLabels .fixed init witnessLabels).getD init,
+   reach_of_run _ _ _ Reach.init (by decide : runLabels .fixed init witnessLabels = some _),
+   by simp only [closePending]; decide, by decide, ⟨_, rfl, by decide, by decide⟩⟩
+
+/-- `subscribe_can_complete`: a `Subscribe` call waiting for the lock can return, provided `Close`
+has been called or every stalled subscriber has left. -/
+theorem subscribe_can_complete (stalled : Nat → Bool) {s : State} {h : Nat}
+    (hr : Reach .fixed s) (hw : h ∈ s.waitS) (hH : Hyp stalled s) :
+    ∃ s', Path .fixed (allowed stalled) s s' ∧ h ∈ s'.retS := by
+  obtain ⟨s1, p1, _, _, hf, hbc, _⟩ := drain_lock stalled hr hH
+  have hw1 : h ∈ s1.waitS := by rw [hf.waitS]; exact hw
+  obtain ⟨k, hk, hk'⟩ := List.getElem_of_mem hw1
+  have hk2 : s1.waitS[k]? = some h := by rw [List.getElem?_eq_getElem hk, hk']
+  cases hcl : s1.closed with
+  | true =>
+    have hs2 : step .fixed s1 (.subAcquire k) = some
+        { s1 with waitS := s1.waitS.eraseIdx k, retS := s1.retS ++ [h] } := by
+      simp only [step, subAcquire, hbc, hk2, hcl]; rfl
+    exact ⟨_, p1.trans (Path.cons _ (Or.inl rfl) hs2 (Path.refl _)), by simp⟩
+  | false =>
+    have hs2 : step .fixed s1 (.subAcquire k) = some
+        { s1 with waitS := s1.waitS.eraseIdx k, retS := s1.retS ++ [h],
+                  subs := s1.subs ++ [Sub.new h s1.log.length] } := by
+      simp only [step, subAcquire, hbc, hk2, hcl]; rfl
+    exact ⟨_, p1.trans (Path.cons _ (Or.inl rfl) hs2 (Path.refl _)), by simp⟩
+
+/-- All readers stalled: internal steps suffice. -/
+theorem subscribe_can_complete_stalled {s : State} {h : Nat} (hr : Reach .fixed s)
+    (hw : h ∈ s.waitS) (hH : Hyp (fun _ => true) s) :
+    ∃ s', IPath .fixed s s' ∧ h ∈ s'.retS := by
+  obtain ⟨s', p, ht⟩ := subscribe_can_complete _ hr hw hH
+  exact ⟨s', p.mono (fun l => internal_of_allowed_all), ht⟩
+
+/-- A `Broadcast` call with ticket `t` has been called and has not finished. -/
+def bcPending (s : State) (t : Nat) : Prop :=
+  (∃ e, e ∈ s.waitB ∧ e.ticket = t) ∨ (∃ e pc, s.bc = some (e, pc) ∧ e.ticket = t)
+
+/-- `broadcast_can_complete`: a pending `Broadcast` (waiting for the lock, or blocked in its
+fan-out on a full buffer while holding the lock) can return, provided `Close` has been called or
+every stalled subscriber has left. -/
+theorem broadcast_can_complete (stalled : Nat → Bool) {s : State} {t : Nat}
+    (hr : Reach .fixed s) (hp : bcPending s t) (hH : Hyp stalled s) :
+    ∃ s', Path .fixed (allowed stalled) s s' ∧ ∃ b, (t, b) ∈ s'.retB := by
+  obtain ⟨s1, p1, hr1, hH1, hf, hbc, hfin⟩ := drain_lock stalled hr hH
+  rcases hp with ⟨e, he, het⟩ | ⟨e, pc, hb, het⟩
+  · -- waiting: take the lock now
+    have he1 : e ∈ s1.waitB := by rw [hf.waitB]; exact he
+    obtain ⟨k, hk, hk'⟩ := List.getElem_of_mem he1
+    have hk2 : s1.waitB[k]? = some e := by rw [List.getElem?_eq_getElem hk, hk']
+    cases hcl : s1.closed with
+    | true =>
+      have hs2 : step .fixed s1 (.bcAcquire k) = some
+          { s1 with waitB := s1.waitB.eraseIdx k, retB := s1.retB ++ [(e.ticket, false)] } := by
+        simp only [step, bcAcquire, hbc, hk2, hcl]; rfl
+      exact ⟨_, p1.trans (Path.cons _ (Or.inl rfl) hs2 (Path.refl _)), false, by simp [het]⟩
+    | false =>
+      have hs2 : step .fixed s1 (.bcAcquire k) = some
+          { s1 with waitB := s1.waitB.eraseIdx k, bc := some (e, 0), log := s1.log ++ [e] } := by
+        simp only [step, bcAcquire, hbc, hk2, hcl]; rfl
+      have hr2 := Reach.step _ hr1 hs2
+      have hH2 : Hyp stalled
+          { s1 with waitB := s1.waitB.eraseIdx k, bc := some (e, 0), log := s1.log ++ [e] } :=
+        hyp_of hH1 rfl (fun h => h)
+      obtain ⟨s3, p3, _, _, _, _, hfin3⟩ := drain_lock stalled hr2 hH2
+      refine ⟨s3, p1.trans (Path.cons _ (Or.inl rfl) hs2 p3), true, ?_⟩
+      have := hfin3 e 0 rfl
+      rwa [het] at this
+  · exact ⟨s1, p1, true, by have := hfin e pc hb; rwa [het] at this⟩
+
+/-- All readers stalled: internal steps suffice. -/
+theorem broadcast_can_complete_stalled {s : State} {t : Nat} (hr : Reach .fixed s)
+    (hp : bcPending s t) (hH : Hyp (fun _ => true) s) :
+    ∃ s', IPath .fixed s s' ∧ ∃ b, (t, b) ∈ s'.retB := by
+  obtain ⟨s', p, ht⟩ := broadcast_can_complete _ hr hp hH
+  exact ⟨s', p.mono (fun l => internal_of_allowed_all), ht⟩
+
+/-- Non-vacuity for the three progress theorems: the schedule that deadlocks the code as found
+(stalled subscriber with 10 buffered + 1 in hand, 12th Broadcast blocked holding the lock, then
+Close and a second Subscribe) is reachable in the repaired model too, and satisfies every
+hypothesis: Close pending, Broadcast 11 pending, Subscribe 1 waiting. -/
+example : ∃ s, Reach .fixed s ∧ closePending s ∧ bcPending s 11 ∧ 1 ∈ s.waitS ∧
+    Hyp (fun _ => true) s := by
+  refine ⟨(runLabels .fixed init witnessLabels).getD init,
+    reach_of_run _ _ _ Reach.init (by decide : runLabels .fixed init witnessLabels = some _),
+    by simp only [closePending]; decide, Or.inr ⟨_, 0, rfl, by decide⟩, by decide,
+    Or.inl (by simp only [closeCalled]; decide)⟩
+
+/-- The blocked schedule with the stalled subscriber cancelled instead of `Close` being called. -/
+def leftLabels : List Label := witnessLabels.take 61 ++ [.cancel 0]
+
+/-- … and the same with the stalled subscriber cancelled instead of Close being called. -/
+example : ∃ s, Reach .fixed s ∧ bcPending s 11 ∧ stalledLeft (fun _ => true) s ∧
+    ¬ closeCalled s := by
+  refine ⟨(runLabels .fixed init leftLabels).getD init,
+    reach_of_run _ _ _ Reach.init (by decide : runLabels .fixed init leftLabels = some _),
+    Or.inr ⟨_, 0, rfl, by decide⟩, ?_, by simp only [closeCalled]; decide⟩
+  have h1 : ∃ u0, ((runLabels .fixed init leftLabels).getD init).subs = [u0] ∧ u0.cancelled = true :=
+    ⟨_, rfl, by decide⟩
+  obtain ⟨u0, h1, h2⟩ := h1
+  intro i u hi _ _
+  rw [h1] at hi
+  cases i with
+  | zero => simp at hi; rw [← hi]; exact h2
+  | succ i => simp at hi
+
 /-! ### The code as found deadlocks: `close_blocked_witness` -/
-
-/-- One stalled subscriber; 11 Broadcasts complete (10 in the buffer, 1 in the forwarder's hand);
-the 12th blocks holding the lock; then Close and a second Subscribe are called. -/
-def witnessLabels : List Label :=
-  [.subCall, .subAcquire 0, .subReturn 0,
-   .bcCall 100, .bcAcquire 0, .bcPush, .bcFinish, .bcReturn 0, .fwdTake 0] ++
-  ((List.range 10).flatMap fun k => [.bcCall (101 + k), .bcAcquire 0, .bcPush, .bcFinish, .bcReturn (k + 1)]) ++
-  [.bcCall 111, .bcAcquire 0, .closeCall, .subCall]
-
-def witnessState : State := (runLabels .orig init witnessLabels).getD init
-
-theorem witness_run : runLabels .orig init witnessLabels = some witnessState := by decide
 
 /-- In the model of the code as found there is a reachable state in which a `Broadcast` holds the
 lock, a `Close` and a `Subscribe` have been called, and no internal step is enabled at all: unless
